@@ -54,13 +54,13 @@ theorem nextFrom_eq_specNext (chain : List Stage) (core : Next) (i : Nat) :
 def NextWN (cs : Msg → Nat → R → List Event → Prop) (ids : List Nat) (next : Next) : Prop :=
   ∀ m c s, ∃ tr, (next m c s).2.trace = s.trace ++ tr ∧ WN cs ids m c (next m c s).1 tr
 
-theorem coreRun_NextWN (k : Kind) (core : Core) (h : Nat) :
+theorem coreRun_NextWN (k : Kind) (core : Core) (h : Msg → Nat) :
     NextWN (CoreSem k) [] (coreRun k core h) := by
   intro m c s
   by_cases hr : routed k m.op = true
-  · refine ⟨[.core s.calls (handlerOf k m.op) m c h (core.outcome s.calls m.tok)], ?_, ?_⟩
+  · refine ⟨[.core s.calls (handlerOf k m.op) m c (h m) (core.outcome s.calls m.tok)], ?_, ?_⟩
     · simp [coreRun, hr]
-    · refine WN.core _ _ _ _ (Or.inl ⟨hr, s.calls, h, core.outcome s.calls m.tok, rfl, ?_⟩)
+    · refine WN.core _ _ _ _ (Or.inl ⟨hr, s.calls, h m, core.outcome s.calls m.tok, rfl, ?_⟩)
       simp [coreRun, hr]
   · refine ⟨[], ?_, ?_⟩
     · simp [coreRun, hr]
@@ -129,7 +129,7 @@ theorem runStage_NextWN {cs : Msg → Nat → R → List Event → Prop} {ids : 
     simp [List.append_assoc]
   · exact WN.stage st.id ids m c _ parts hp
 
-theorem specNext_NextWN (k : Kind) (core : Core) (h : Nat) :
+theorem specNext_NextWN (k : Kind) (core : Core) (h : Msg → Nat) :
     ∀ chain : List Stage,
       NextWN (CoreSem k) (chain.map Stage.id) (specNext (coreRun k core h) chain) := by
   intro chain
@@ -148,7 +148,8 @@ def NextCount (op p : Nat) (next : Next) : Prop :=
 theorem coreEvents_append (a b : List Event) : coreEvents (a ++ b) = coreEvents a + coreEvents b := by
   simp [coreEvents, List.countP_append]
 
-theorem coreRun_NextCount (k : Kind) (core : Core) (h op : Nat) (hr : routed k op = true) :
+theorem coreRun_NextCount (k : Kind) (core : Core) (h : Msg → Nat) (op : Nat)
+    (hr : routed k op = true) :
     NextCount op 1 (coreRun k core h) := by
   intro m c s hm
   have hr' : routed k m.op = true := by rw [hm]; exact hr
@@ -205,7 +206,8 @@ theorem runStage_NextCount {op p : Nat} {next : Next} (hn : NextCount op p next)
   · rw [runStage_snd, St.log_trace, coreEvents_append, h2, Stage.mult]
     simp [coreEvents, Event.isCore]
 
-theorem specNext_NextCount (k : Kind) (core : Core) (h op : Nat) (hr : routed k op = true) :
+theorem specNext_NextCount (k : Kind) (core : Core) (h : Msg → Nat) (op : Nat)
+    (hr : routed k op = true) :
     ∀ chain : List Stage, (∀ st ∈ chain, st.Straight) →
       NextCount op (prodL (chain.map Stage.mult)) (specNext (coreRun k core h) chain) := by
   intro chain
@@ -236,7 +238,7 @@ theorem runStage_pipe (next : Next) (p : Nat × Tr × Nat × Tr) (m : Msg) (c : 
           (.back p.1 (runStage next (pipeStage p) m c s).1)).log
           (.exit p.1 (runStage next (pipeStage p) m c s).1) := rfl
 
-theorem specNext_pipe (k : Kind) (core : Core) (h : Nat) :
+theorem specNext_pipe (k : Kind) (core : Core) (h : Msg → Nat) :
     ∀ (ps : List (Nat × Tr × Nat × Tr)) (m : Msg) (c : Nat) (s : St),
       enters (specNext (coreRun k core h) (ps.map pipeStage) m c s).2.trace
         = enters s.trace ++ pipeEnters ps m c ∧
@@ -258,5 +260,241 @@ theorem specNext_pipe (k : Kind) (core : Core) (h : Nat) :
     rw [runStage_pipe]
     simp only [St.log_trace, enters_append, coreInputs_append, h1, h2]
     simp [enters, coreInputs, pipeEnters, pipeOut]
+
+/-! ### registration -/
+
+theorem foldl_append_eq (acc : List Stage) (calls : List (List Stage)) :
+    calls.foldl (· ++ ·) acc = acc ++ calls.flatten := by
+  induction calls generalizing acc with
+  | nil => simp
+  | cons c cs ih => simp [ih, List.append_assoc]
+
+theorem registered_eq_flatten (calls : List (List Stage)) : registered calls = calls.flatten := by
+  simp [registered, foldl_append_eq]
+
+/-! ### several items -/
+
+/-- the trace and the results of a batch: one complete well-nested execution of the item chain per
+    item, in order, each on its own item with the context of the batch, each result finished as
+    `executeItemWithMiddleware` does. -/
+inductive ItemsWN (ids : List Nat) (c : Nat) : List Msg → List R → List Event → Prop where
+  | nil : ItemsWN ids c [] [] []
+  | cons (it : Msg) (rest : List Msg) (r : R) (rs : List R) (tr trs : List Event) :
+      WN (CoreSem .srvitem) ids it c r tr → ItemsWN ids c rest rs trs →
+      ItemsWN ids c (it :: rest) (finish .srvitem it.op r :: rs) (tr ++ trs)
+
+theorem runItems_ItemsWN (chain : List Stage) (core : Core) (h0 c : Nat) :
+    ∀ (items : List Msg) (s : St), ∃ tr,
+      (runItems chain core h0 c items s).2.trace = s.trace ++ tr ∧
+      ItemsWN (chain.map Stage.id) c items (runItems chain core h0 c items s).1 tr := by
+  intro items
+  induction items with
+  | nil => intro s; exact ⟨[], by simp [runItems], .nil⟩
+  | cons it rest ih =>
+    intro s
+    have hwn := specNext_NextWN .srvitem core (fun _ => h0) chain it c s
+    rw [← List.drop_zero (l := chain), ← nextFrom_eq_specNext] at hwn
+    obtain ⟨tr, htr, hw⟩ := hwn
+    obtain ⟨trs, htrs, hws⟩ := ih (nextFrom chain (coreRun .srvitem core (fun _ => h0)) 0 it c s).2
+    refine ⟨tr ++ trs, ?_, ?_⟩
+    · simp only [runItems]
+      rw [htrs, htr, List.append_assoc]
+    · simp only [runItems]
+      exact .cons it rest _ _ tr trs hw hws
+
+theorem runItems_eq_specItems (chain : List Stage) (core : Core) (h0 c : Nat) :
+    ∀ (items : List Msg) (s : St),
+      runItems chain core h0 c items s = specItems chain core h0 c items s := by
+  intro items
+  induction items with
+  | nil => intro s; rfl
+  | cons it rest ih =>
+    intro s
+    simp only [runItems, specItems]
+    rw [nextFrom_eq_specNext, List.drop_zero, ih]
+
+/-! ### both chains -/
+
+/-- one invocation of the innermost continuation of the MESSAGE chain when an item chain `iids` is
+    installed: one complete well-nested execution of the item chain on the message's item. -/
+def BothSem (iids : List Nat) (m : Msg) (c : Nat) (r : R) (tr : List Event) : Prop :=
+  ∃ r', WN (CoreSem .srvitem) iids m c r' tr ∧ r = finish .srvitem m.op r'
+
+theorem bothCore_NextWN (ichain : List Stage) (core : Core) (h : Msg → Nat) :
+    NextWN (BothSem (ichain.map Stage.id)) [] (bothCore ichain core h) := by
+  intro m c s
+  have hwn := specNext_NextWN .srvitem core (fun _ => h m) ichain m c s
+  rw [← List.drop_zero (l := ichain), ← nextFrom_eq_specNext] at hwn
+  obtain ⟨tr, htr, hw⟩ := hwn
+  exact ⟨tr, htr, WN.core _ _ _ _ ⟨_, hw, rfl⟩⟩
+
+theorem specNext_both_NextWN (ichain : List Stage) (core : Core) (h : Msg → Nat) :
+    ∀ mchain : List Stage,
+      NextWN (BothSem (ichain.map Stage.id)) (mchain.map Stage.id)
+        (specNext (bothCore ichain core h) mchain) := by
+  intro mchain
+  induction mchain with
+  | nil => exact bothCore_NextWN ichain core h
+  | cons st rest ih => exact runStage_NextWN ih st
+
+/-! ### the handler's context reports the header of the message that is executed -/
+
+def Event.hdrOk : Event → Bool
+  | .core _ _ m _ h _ => h == m.tok
+  | _ => true
+
+/-- a continuation that only appends events whose reported header is the executed message's. -/
+def NextHdr (next : Next) : Prop :=
+  ∀ m c s, ∃ tr, (next m c s).2.trace = s.trace ++ tr ∧ tr.all Event.hdrOk = true
+
+theorem coreRun_NextHdr (k : Kind) (core : Core) : NextHdr (coreRun k core (fun m => m.tok)) := by
+  intro m c s
+  by_cases hr : routed k m.op = true
+  · exact ⟨[.core s.calls (handlerOf k m.op) m c m.tok (core.outcome s.calls m.tok)],
+      by simp [coreRun, hr], by simp [Event.hdrOk]⟩
+  · exact ⟨[], by simp [coreRun, hr], rfl⟩
+
+theorem runActs_NextHdr {next : Next} (hn : NextHdr next) (id : Nat) :
+    ∀ (as : List Act) (m : Msg) (c : Nat) (last : R) (s : St), ∃ tr,
+      (runActs next id as m c last s).2.trace = s.trace ++ tr ∧ tr.all Event.hdrOk = true := by
+  intro as
+  induction as with
+  | nil => intro m c last s; exact ⟨[], by simp [runActs], rfl⟩
+  | cons a as ih =>
+    intro m c last s
+    have hcall : ∃ tr,
+        (runActs next id as m c (doCall next id m c s).1 (doCall next id m c s).2).2.trace
+          = s.trace ++ tr ∧ tr.all Event.hdrOk = true := by
+      obtain ⟨t1, h1, a1⟩ := hn m c (s.log (.call id m c))
+      obtain ⟨t2, h2, a2⟩ := ih m c (doCall next id m c s).1 (doCall next id m c s).2
+      refine ⟨.call id m c :: t1 ++ [.back id (doCall next id m c s).1] ++ t2, ?_, ?_⟩
+      · rw [h2, doCall_snd, St.log_trace, h1, St.log_trace, doCall_fst]
+        simp [List.append_assoc]
+      · simp [List.all_append, a1, a2, Event.hdrOk]
+    cases a with
+    | setMsg t => simpa [runActs] using ih { m with tok := t.app m.tok } c last s
+    | setOp o => simpa [runActs] using ih { m with op := o } c last s
+    | setCtx t => simpa [runActs] using ih m (t.app c) last s
+    | call => simpa [runActs] using hcall
+    | callIfFail =>
+      by_cases hf : last.isFail = true
+      · simpa [runActs, hf] using hcall
+      · simpa [runActs, hf] using ih m c last s
+    | ret rt => exact ⟨[], by simp [runActs], rfl⟩
+    | retIfFail rt =>
+      by_cases hf : last.isFail = true
+      · exact ⟨[], by simp [runActs, hf], rfl⟩
+      · simpa [runActs, hf] using ih m c last s
+    | retIfOk rt =>
+      by_cases hf : last.isFail = true
+      · simpa [runActs, hf] using ih m c last s
+      · exact ⟨[], by simp [runActs, hf], rfl⟩
+
+theorem runStage_NextHdr {next : Next} (hn : NextHdr next) (st : Stage) :
+    NextHdr (runStage next st) := by
+  intro m c s
+  obtain ⟨tr, h, a⟩ := runActs_NextHdr hn st.id st.body m c R.nil (s.log (.enter st.id m c))
+  refine ⟨.enter st.id m c :: tr ++ [.exit st.id (runStage next st m c s).1], ?_, ?_⟩
+  · rw [runStage_snd, St.log_trace, h, St.log_trace]
+    simp [List.append_assoc]
+  · simp [List.all_append, a, Event.hdrOk]
+
+theorem specNext_NextHdr (k : Kind) (core : Core) (chain : List Stage) :
+    NextHdr (specNext (coreRun k core (fun m => m.tok)) chain) := by
+  induction chain with
+  | nil => exact coreRun_NextHdr k core
+  | cons st rest ih => exact runStage_NextHdr ih st
+
+/-! ### interference on a shared cell -/
+
+/-- two states that differ at most in the shared cell. -/
+def Sim (s s' : St) : Prop := s.trace = s'.trace ∧ s.calls = s'.calls
+
+/-- `nextP` under interference does what `next` does, whatever the shared cell holds. -/
+def NextSim (nextP next : Next) : Prop :=
+  ∀ m c s s', Sim s s' → (nextP m c s).1 = (next m c s').1 ∧ Sim (nextP m c s).2 (next m c s').2
+
+theorem Sim_logP (env : Nat → Nat) {s s' : St} (h : Sim s s') (e : Event) :
+    Sim (s.logP env e) (s'.log e) := by
+  obtain ⟨h1, h2⟩ := h
+  exact ⟨by simp [St.logP, St.log, h1], by simp [St.logP, St.log, h2]⟩
+
+theorem coreRunP_sim (env : Nat → Nat) (k : Kind) (core : Core) (h : Msg → Nat) :
+    NextSim (coreRunP env k core h) (coreRun k core h) := by
+  intro m c s s' hs
+  obtain ⟨h1, h2⟩ := hs
+  by_cases hr : routed k m.op = true
+  · simp [coreRunP, coreRun, hr, Sim, h1, h2]
+  · simp [coreRunP, coreRun, hr, Sim, h1, h2]
+
+theorem doCallP_sim (env : Nat → Nat) {nextP next : Next} (hn : NextSim nextP next) (id : Nat)
+    (m : Msg) (c : Nat) {s s' : St} (hs : Sim s s') :
+    (doCallP env nextP id m c s).1 = (doCall next id m c s').1 ∧
+      Sim (doCallP env nextP id m c s).2 (doCall next id m c s').2 := by
+  obtain ⟨h1, h2⟩ := hn m c _ _ (Sim_logP env hs (.call id m c))
+  refine ⟨h1, ?_⟩
+  simp only [doCallP, doCall]
+  rw [h1]
+  exact Sim_logP env h2 _
+
+theorem runActsP_sim (env : Nat → Nat) {nextP next : Next} (hn : NextSim nextP next) (id : Nat) :
+    ∀ (as : List Act) (m : Msg) (c : Nat) (last : R) (s s' : St), Sim s s' →
+      (runActsP env nextP id as m c last s).1 = (runActs next id as m c last s').1 ∧
+      Sim (runActsP env nextP id as m c last s).2 (runActs next id as m c last s').2 := by
+  intro as
+  induction as with
+  | nil => intro m c last s s' hs; exact ⟨rfl, hs⟩
+  | cons a as ih =>
+    intro m c last s s' hs
+    have hcall := doCallP_sim env hn id m c hs
+    cases a with
+    | setMsg t => simpa [runActsP, runActs] using ih { m with tok := t.app m.tok } c last s s' hs
+    | setOp o => simpa [runActsP, runActs] using ih { m with op := o } c last s s' hs
+    | setCtx t => simpa [runActsP, runActs] using ih m (t.app c) last s s' hs
+    | call =>
+      simp only [runActsP, runActs]
+      rw [hcall.1]
+      exact ih m c _ _ _ hcall.2
+    | callIfFail =>
+      by_cases hf : last.isFail = true
+      · simp only [runActsP, runActs, hf, if_true]
+        rw [hcall.1]
+        exact ih m c _ _ _ hcall.2
+      · simpa [runActsP, runActs, hf] using ih m c last s s' hs
+    | ret rt => exact ⟨rfl, hs⟩
+    | retIfFail rt =>
+      by_cases hf : last.isFail = true
+      · simpa [runActsP, runActs, hf] using hs
+      · simpa [runActsP, runActs, hf] using ih m c last s s' hs
+    | retIfOk rt =>
+      by_cases hf : last.isFail = true
+      · simpa [runActsP, runActs, hf] using ih m c last s s' hs
+      · simpa [runActsP, runActs, hf] using hs
+
+theorem runStageP_sim (env : Nat → Nat) {nextP next : Next} (hn : NextSim nextP next) (st : Stage) :
+    NextSim (runStageP env nextP st) (runStage next st) := by
+  intro m c s s' hs
+  obtain ⟨h1, h2⟩ := runActsP_sim env hn st.id st.body m c R.nil _ _
+    (Sim_logP env hs (.enter st.id m c))
+  refine ⟨h1, ?_⟩
+  simp only [runStageP, runStage]
+  rw [h1]
+  exact Sim_logP env h2 _
+
+theorem nextFromP_sim (env : Nat → Nat) (chain : List Stage) {coreP core : Next}
+    (hc : NextSim coreP core) :
+    ∀ (n i : Nat), chain.length - i = n →
+      NextSim (nextFromP env chain coreP i) (nextFrom chain core i) := by
+  intro n
+  induction n with
+  | zero =>
+    intro i h m c s s' hs
+    rw [nextFromP, nextFrom, dif_neg (by omega), dif_neg (by omega)]
+    exact hc m c s s' hs
+  | succ n ih =>
+    intro i h m c s s' hs
+    have hi : i < chain.length := by omega
+    rw [nextFromP, nextFrom, dif_pos hi, dif_pos hi]
+    exact runStageP_sim env (ih (i + 1) (by omega)) chain[i] m c s s' hs
 
 end Kmip.Mw
